@@ -58,7 +58,9 @@ pub proof fn lemma_max_ref_dominates(es: Seq<LogRefEntry>, k: int, i: int)
 }
 
 // ---- the inserted token (C03, C12) -----------------------------------------
-pub open spec fn token_chars(e: LogRefEntry, id: u32) -> Seq<char> {
+// `id` is the mathematical ID: a token for an ID outside u32 cannot be produced by the code, so a wrapped
+// counter can never satisfy a postcondition stated with this function (C01: fail instead of wrapping).
+pub open spec fn token_chars(e: LogRefEntry, id: int) -> Seq<char> {
     if e.insertion_prefix.is_none() && e.insertion_suffix.is_none() {
         seq!['[', 'r', 'e', 'f', ':', ' '] + dec(id as nat) + seq![']', ' ']
     } else {
@@ -67,7 +69,7 @@ pub open spec fn token_chars(e: LogRefEntry, id: u32) -> Seq<char> {
         + (if e.insertion_suffix.is_some() { e.insertion_suffix.unwrap()@ } else { Seq::<char>::empty() })
     }
 }
-pub open spec fn token_bytes(e: LogRefEntry, id: u32) -> Seq<u8> { encode_utf8(token_chars(e, id)) }
+pub open spec fn token_bytes(e: LogRefEntry, id: int) -> Seq<u8> { encode_utf8(token_chars(e, id)) }
 
 // ---- the splice (C03): what an edited file must look like --------------------------------
 // position up to which the original has been copied after the first k entries
@@ -76,24 +78,66 @@ pub open spec fn cursor(es: Seq<LogRefEntry>, k: int) -> int
 {
     if k <= 0 { 0 } else if missing(es[k - 1]) { es[k - 1].position.character as int } else { cursor(es, k - 1) }
 }
-// bytes produced for the first k entries when the first new ID is `first`
-pub open spec fn out(c: Seq<u8>, es: Seq<LogRefEntry>, first: int, k: int) -> Seq<u8>
+// bytes produced for the first k entries when the j-th inserted token carries ids[j]
+pub open spec fn out(c: Seq<u8>, es: Seq<LogRefEntry>, ids: Seq<int>, k: int) -> Seq<u8>
     decreases k
 {
     if k <= 0 { Seq::empty() }
     else if missing(es[k - 1]) {
-        out(c, es, first, k - 1)
+        out(c, es, ids, k - 1)
           + c.subrange(cursor(es, k - 1), es[k - 1].position.character as int)
-          + token_bytes(es[k - 1], (first + n_missing(es, k - 1)) as u32)
-    } else { out(c, es, first, k - 1) }
+          + token_bytes(es[k - 1], ids[n_missing(es, k - 1)])
+    } else { out(c, es, ids, k - 1) }
 }
-pub open spec fn edited(c: Seq<u8>, es: Seq<LogRefEntry>, first: int) -> Seq<u8> {
-    out(c, es, first, es.len() as int) + c.subrange(cursor(es, es.len() as int), c.len() as int)
+pub open spec fn edited(c: Seq<u8>, es: Seq<LogRefEntry>, ids: Seq<int>) -> Seq<u8> {
+    out(c, es, ids, es.len() as int) + c.subrange(cursor(es, es.len() as int), c.len() as int)
+}
+// C01: consecutive IDs starting at `first`
+pub open spec fn consec(first: int, n: int) -> Seq<int> { Seq::new(n as nat, |j: int| first + j) }
+// C03: the file is its original with one token per missing entry spliced in, whatever the IDs
+pub open spec fn is_token_insertion(c: Seq<u8>, es: Seq<LogRefEntry>, d: Seq<u8>) -> bool {
+    exists|ids: Seq<int>| ids.len() == n_missing_all(es) && d == #[trigger] edited(c, es, ids)
 }
 // insertion offsets are in range and non-decreasing (what find's spans give)
 pub open spec fn positions_ok(c: Seq<u8>, es: Seq<LogRefEntry>) -> bool {
     forall|k: int| 0 <= k < es.len() && missing(#[trigger] es[k]) ==>
         cursor(es, k) <= es[k].position.character as int <= c.len()
+}
+pub proof fn lemma_ids_consec(ids: Seq<int>, first: int, n: int)
+    requires ids.len() == n, forall|j: int| 0 <= j < ids.len() ==> ids[j] == first + j
+    ensures ids =~= consec(first, n)
+{
+}
+// `out` for the first k entries reads only ids[0 .. n_missing(k))
+pub proof fn lemma_out_ids_prefix(c: Seq<u8>, es: Seq<LogRefEntry>, a: Seq<int>, b: Seq<int>, k: int)
+    requires 0 <= k <= es.len(), n_missing(es, k) <= a.len(), n_missing(es, k) <= b.len(),
+        forall|j: int| 0 <= j < n_missing(es, k) ==> a[j] == b[j],
+    ensures out(c, es, a, k) == out(c, es, b, k)
+    decreases k
+{
+    if k > 0 {
+        lemma_n_missing_bounds(es, k - 1);
+        lemma_out_ids_prefix(c, es, a, b, k - 1);
+    }
+}
+
+pub proof fn lemma_no_missing_prefix(c: Seq<u8>, es: Seq<LogRefEntry>, ids: Seq<int>, k: int)
+    requires 0 <= k <= es.len(), n_missing_all(es) == 0
+    ensures n_missing(es, k) == 0, cursor(es, k) == 0, out(c, es, ids, k) == Seq::<u8>::empty()
+    decreases k
+{
+    lemma_n_missing_mono(es, k, es.len() as int);
+    lemma_n_missing_bounds(es, k);
+    if k > 0 { lemma_no_missing_prefix(c, es, ids, k - 1); }
+}
+// a file without missing references is its own edit
+pub proof fn lemma_edited_noop(c: Seq<u8>, es: Seq<LogRefEntry>, ids: Seq<int>)
+    requires n_missing_all(es) == 0
+    ensures edited(c, es, ids) == c
+{
+    lemma_no_missing_prefix(c, es, ids, es.len() as int);
+    assert(c.subrange(0, c.len() as int) == c);
+    assert(Seq::<u8>::empty() + c == c);
 }
 
 // Deleting exactly the inserted tokens gives back the original bytes (C03's own wording).
